@@ -84,8 +84,9 @@ inline constexpr struct get_pay_cpo {
     return unifex::tag_invoke(*this, x);
   }
 } get_pay{};
-// same query with a non-const `this_&` signature: any_unique's allocator-aware storage only provides the
-// non-const get_wrapped_object, so a `const this_&` CPO does not compile there (probe "uniq_alloc_const_cpo")
+// same query with a non-const `this_&` signature, used for any_unique: before repository fix 05635c8 its
+// allocator-aware storage only had the non-const get_wrapped_object and a `const this_&` CPO did not compile
+// there; keeping this driver independent of that, the const case is covered by probe "uniq_alloc_const_cpo"
 inline constexpr struct get_pay_nc_cpo {
   using type_erased_signature_t = int(unifex::this_&) noexcept;
   template <typename T>
